@@ -160,7 +160,7 @@ func init() {
 			p.EvidenceOnPayout = false
 			return baseScenario("C01", r, seed, chain, tier, p, nil)
 		},
-		Monitors: func(sc *Scenario) []Monitor { return []Monitor{&MonC01{}} },
+		Monitors: func(sc *Scenario) []Monitor { return []Monitor{&MonC01{}, MonHotCold{}} },
 		Distinct: distinctKindCodes,
 	})
 	register(&PropSpec{ID: "C02", Level: "exploration",
